@@ -116,6 +116,8 @@ def run(tier):
         mem = []
         redox = False
         for e in fams[k]:
+            if "timeout" in e["issue"].lower():
+                continue   # wall-clock budget hit: not reproducible
             ad = _added(e)
             for mid in ad["l"] + ad["r"]:
                 smi = mols.get(str(mid), "")
@@ -124,7 +126,8 @@ def run(tier):
                     redox = True
             mem.append({"input": e["argstr"], "solved": e["solved"], "by": e["by"], "l": e["arg"]["l"], "r": e["arg"]["r"],
                         "add_l": ad["l"], "add_r": ad["r"], "reaction": e["reaction"]})
-        events.append({"ev": "family", "id": len(events) + 1, "fam": k, "redox_template": redox, "members": mem})
+        if len(mem) >= 2:
+            events.append({"ev": "family", "id": len(events) + 1, "fam": k, "redox_template": redox, "members": mem})
     log = os.path.join(wd, "c14.ndjson")
     common.write_ndjson(log, events)
     n, bad, st = common.validate_trace("Spelling_Trace", log, xmx="12g")
